@@ -64,10 +64,32 @@ def render_rel(spec) -> list:
     return out
 
 
+def scramble_ticks(msgs, perm):
+    """Reorder a rendered absolute list by whole ticks (seeded), keeping the canonical order inside one tick (DESIGN L6):
+    the order in which a caller may hand messages to add_absolute_message / overwrite_absolute_messages."""
+    groups = {}
+    for m in msgs:
+        groups.setdefault(m.time, []).append(m)
+    ticks = sorted(groups)
+    x = perm
+    for i in range(len(ticks) - 1, 0, -1):
+        x = (x * 1103515245 + 12345) & 0x7FFFFFFF
+        j = x % (i + 1)
+        ticks[i], ticks[j] = ticks[j], ticks[i]
+    return [m for t in ticks for m in groups[t]]
+
+
 def build_sequence(spec, mode) -> Sequence:
-    """mode: 'abs' (only absolute fresh), 'rel' (only relative fresh), 'both', 'empty' (Sequence())."""
+    """mode: 'abs' (only absolute fresh), 'rel' (only relative fresh), 'both', 'empty' (Sequence()),
+    'insert:<n>' (built message by message through add_absolute_message, ticks in a seeded scrambled order)."""
     if mode == "empty":
         return Sequence()
+    if mode.startswith("insert"):
+        s = Sequence()
+        perm = int(mode.split(":")[1]) if ":" in mode else 1
+        for m in scramble_ticks(render_abs(spec), perm):
+            s.add_absolute_message(m)
+        return s
     if mode == "abs":
         return Sequence(absolute_sequence=AbsoluteSequence(render_abs(spec)))
     if mode == "rel":
